@@ -16,7 +16,8 @@
 //!          an exhausted script blocks for ever (Pending, nobody wakes the task)
 //!   write  `a<n>` accept up to n bytes, `p` Pending, `x` Err; exhausted = blocks for ever;
 //!          `poll_flush` succeeds on `a…` (event stays), Pending on `p`, Err on `x`
-//!   prog   `s<hex>` handle.send, `S<hex>` send through `with_remote_addr(other)`, `p` poll once;
+//!   prog   `s<hex>` handle.send, `S<hex>` send through `with_remote_addr(other)`, `p` poll once,
+//!          `h` drop every sender handle (the stream must go on delivering what the peer sends);
 //!          afterwards the stream is polled while the task is woken.
 //! Output: every `poll_next` result (`m<hex>` / `P` woken Pending / `I` un-woken Pending / `end` / `err`),
 //!         ` w=<bytes accepted by the socket> f=<successful flushes> r=<sends refused by the full queue>`.
@@ -59,6 +60,8 @@ enum WEv {
 enum Act {
     Send(Vec<u8>, bool),
     Poll,
+    /// every sender handle is dropped (receive-only use of the stream from here on)
+    DropHandles,
 }
 
 #[derive(Default)]
@@ -337,6 +340,7 @@ fn parse_case(t: &[&str]) -> Option<Case> {
     })?;
     let prog = parse_list(prog, |e| match e {
         "p" => Some(Act::Poll),
+        "h" => Some(Act::DropHandles),
         _ => {
             if let Some(h) = e.strip_prefix('s') {
                 unhex(h).map(|m| Act::Send(m, true))
@@ -386,6 +390,7 @@ fn show_prog(p: &[Act]) -> String {
             Act::Send(m, true) => format!("s{}", hex(m)),
             Act::Send(m, false) => format!("S{}", hex(m)),
             Act::Poll => "p".into(),
+            Act::DropHandles => "h".into(),
         })
         .collect::<Vec<_>>()
         .join(",")
@@ -448,7 +453,7 @@ fn run_case(c: &Case) -> RunOut {
             _ => TcpStream::from_stream(s, peer),
         }
     }
-    let (mut stream, mut handle): (Items, _) = if !c.adapted {
+    let (mut stream, handle): (Items, _) = if !c.adapted {
         let (tcp, handle) = make(c.wrap, ScriptSock(sock.clone()), peer);
         (wrap(c.wrap, tcp), handle)
     } else if c.vec {
@@ -497,9 +502,14 @@ fn run_case(c: &Case) -> RunOut {
         t
     };
     let mut done = false;
+    let mut handle = Some(handle);
     for a in &c.prog {
         match a {
+            Act::DropHandles => {
+                handle = None;
+            }
             Act::Send(m, ok) => {
+                let Some(handle) = handle.as_mut() else { continue };
                 let r = if *ok {
                     handle.send(SerialMessage::new(m.clone(), peer))
                 } else {
@@ -534,7 +544,7 @@ fn run_case(c: &Case) -> RunOut {
     }
     // waker contract of the outbound queue (validated only): after the read half blocked, the
     // queue has been polled empty in the same poll_next, so a later send must wake the task
-    if out.trace.last() == Some(&Tok::I) && out.idle_side == Some('r') {
+    if let (Some(handle), true) = (handle.as_mut(), out.trace.last() == Some(&Tok::I) && out.idle_side == Some('r')) {
         flag.0.store(false, Ordering::SeqCst);
         let _ = handle.send(SerialMessage::new(vec![0xEE], peer));
         out.idle_send_wakes = Some(flag.0.load(Ordering::SeqCst));
@@ -993,6 +1003,19 @@ fn gen_case(r: &mut Rng) -> String {
     } else if r.chance(1, 6) {
         for _ in 0..r.range(1, 3) {
             prog.push(Act::Poll);
+        }
+    }
+    if r.chance(1, 5) {
+        // receive-only use: every handle dropped up front, after the sends, or after a few polls
+        match r.below(3) {
+            0 => prog.insert(0, Act::DropHandles),
+            1 => prog.push(Act::DropHandles),
+            _ => {
+                for _ in 0..r.range(1, 3) {
+                    prog.push(Act::Poll);
+                }
+                prog.push(Act::DropHandles);
+            }
         }
     }
     let wrap = *r.pick(&['t', 't', 't', 'c', 'o', 'O']);
